@@ -171,6 +171,13 @@ def r2(ctx, facts):
         kinds.add("runtime" if f.rec.get("params") else "static")
         if ok:
             cs = cmp_sides(rets[0]["val"])
+            if cs is not None:
+                # a side held in a local that is initialised once and never assigned again stands for its initialiser
+                inits = f.var_inits()
+                def resolve(e):
+                    v = var_ref(strip(e, casts=True))
+                    return inits[v] if v is not None and v in inits and isnode(inits[v]) and not f.assignments_to_var(v) else e
+                cs = (cs[0], resolve(cs[1]), resolve(cs[2]))
             ok = cs is not None and cs[0] == "<=" and \
                 (is_call(strip(cs[1], casts=True), r"LoggerBase::get_log_level$") or (atomic_op(strip(cs[1], casts=True)) or {}).get("kind") == "load")
             if ok:
@@ -188,6 +195,60 @@ def r2(ctx, facts):
     gl = facts.need("quill::detail::LoggerBase::get_log_level", "A")[0]
     ok = any((atomic_op(n) or {}).get("kind") == "load" and is_this_field(atomic_op(n)["obj"], "log_level") for n in gl.walk())
     ctx.ob("C16.R2", "LoggerBase::get_log_level", ok, "the logger level compared is the logger's log_level field", fn=gl)
+
+
+def filter_loop(f):
+    """the other accepted form of 'every attached filter has to accept': a range-for over the sink's local list that returns false
+    at the first rejecting filter and is left only by that return or by running out of filters. Returns None when there is no such
+    loop, else {ok, why, use: graph positions where the list is consulted, calls}."""
+    g = f.g
+    loops = [n for n in f.walk() if n["k"] == "CXXForRangeStmt" and is_this_field(strip(n.get("range"), casts=True), "_local_filters") and
+             any(is_call(x, r"quill::Filter::filter$") for x in walk(n.get("body")))]
+    if not loops:
+        return None
+    if len(loops) > 1:
+        raise AnalysisBroken("Sink::apply_all_filters: more than one loop over the local filter list")
+    L = loops[0]
+    body = L.get("body")
+    lv = L["loopvar"]["did"]
+    fcalls = [x for x in walk(body) if is_call(x, r"quill::Filter::filter$")]
+    jumps = [x for x in walk(body) if x["k"] in ("BreakStmt", "ContinueStmt", "GotoStmt")]
+    if jumps:
+        raise AnalysisBroken("Sink::apply_all_filters: the loop over the filters contains break / continue / goto: not decided")
+    stmts = (body.get("c") or body.get("stmts") or []) if isnode(body) and body["k"] == "CompoundStmt" else [body]
+    falses = returns_bool(f, False)
+    br = [(b, t, c) for (b, t, c) in branches_on_call(f, r"quill::Filter::filter$") if any(c is x or c.get("id") == x.get("id") for x in fcalls)]
+    why = []
+    if len(br) != len(fcalls):
+        raise AnalysisBroken("Sink::apply_all_filters: a filter verdict in the loop is not the condition of a branch: not decided")
+    top = all(any(isnode(st) and st["k"] == "IfStmt" and any(y.get("id") == c.get("id") for y in walk(st.get("cond"))) for st in stmts) or
+              any(isnode(st) and st["k"] == "DeclStmt" and any(y.get("id") == c.get("id") for y in walk(st)) for st in stmts) for c in fcalls)
+    if not top:
+        raise AnalysisBroken("Sink::apply_all_filters: the filter call is nested below the top level of the loop body: not decided")
+    on_lv = all(var_ref(strip(call_obj(c), casts=True)) == lv for c in fcalls)
+    if not on_lv:
+        why.append("the verdict is not asked of the filter being visited")
+    lvl = f.rec["params"][5]["did"]
+    if not all(len(c.get("args", [])) > 5 and any(var_ref(x) == lvl for x in walk(c["args"][5])) for c in fcalls):
+        why.append("the filter is not given the statement's level")
+    reject = [(b, other(t)) for (b, t, c) in br]
+    fpos = [p_ for c in fcalls for p_ in g.positions(c)]
+    in_loop_rets = [x for x in walk(body) if x["k"] == "ReturnStmt"]
+    for r in in_loop_rets:
+        rp = g.positions(r)
+        if not all(p_ in falses for p_ in rp):
+            why.append("a return inside the loop does not return false (%s)" % r.get("loc"))
+        if g.exists_path([g.entry_node], rp, avoid_edges=reject):
+            why.append("a return inside the loop is reached without a rejecting verdict (%s)" % r.get("loc"))
+    for (b, lab) in reject:
+        start = [y for (y, l2) in g.succ.get(tnode(g, b), ()) if l2 == lab]
+        r_ = g.reach(start, include_src=True)
+        if any(p_ in r_ for p_ in fpos) or any(p_ in r_ and p_ not in falses for p_ in g.return_nodes()):
+            why.append("a rejecting verdict does not end in 'return false'")
+    cond_pos = [p_ for x in walk(L.get("cond")) for p_ in g.positions(x)] if isnode(L.get("cond")) else []
+    if not cond_pos:
+        raise AnalysisBroken("Sink::apply_all_filters: the loop condition has no position in the flow graph")
+    return {"ok": not why, "why": why, "use": cond_pos + fpos, "calls": fcalls, "cond": cond_pos}
 
 
 def r3(ctx, facts):
@@ -225,11 +286,22 @@ def r3(ctx, facts):
         ok = over_local and direct and lvl_passed
     other_true = [r for r in rets if const_val(r["val"]) == 1]
     empt = branches_on_call(f, r"std::vector<quill::Filter \*.*>::empty$")
-    only_when_empty = bool(empt) and not g.exists_path([g.entry_node], [p for p in g.return_nodes() if const_val(g.node_ast(p)["val"]) == 1],
-                                                       avoid_edges=[(b, t) for (b, t, c) in empt])
-    ctx.ob("C16.R3b", "Sink::apply_all_filters:all-filters", ok and (not other_true or only_when_empty),
-           "acceptance is the conjunction of every attached filter's verdict (std::all_of over the sink's filters, each verdict returned "
-           "unchanged); unconditional 'true' only when the sink has no filter", fn=f)
+    true_pos = [p for p in g.return_nodes() if const_val(g.node_ast(p)["val"]) == 1]
+    only_when_empty = bool(empt) and not g.exists_path([g.entry_node], true_pos, avoid_edges=[(b, t) for (b, t, c) in empt])
+    fl = filter_loop(f) if not allof else None
+    if fl is not None:
+        # loop form: 'true' is returned only after the loop ran out of filters (or on the 'list is empty' outcome), every other return is false
+        nonbool = [r for r in rets if const_val(r["val"]) not in (0, 1)]
+        after_loop = bool(true_pos) and not g.exists_path([g.entry_node], true_pos, avoid_nodes=fl["cond"], avoid_edges=[(b, t) for (b, t, c) in empt])
+        ok_b = fl["ok"] and not nonbool and after_loop
+        detail = "; ".join(fl["why"]) or ("loop over the sink's filters, %d verdict(s)" % len(fl["calls"]))
+    else:
+        ok_b = ok and (not other_true or only_when_empty)
+        detail = "std::all_of"
+    ctx.ob("C16.R3b", "Sink::apply_all_filters:all-filters", ok_b,
+           "acceptance is the conjunction of every attached filter's verdict (std::all_of over the sink's filters with each verdict "
+           "returned unchanged, or a loop over them that returns false at the first rejection and true only when it ran out of filters); "
+           "unconditional 'true' only when the sink has no filter (%s)" % detail, fn=f)
     # local copy refreshed from the global list under the lock whenever _new_filter is set
     refresh = [n for n in f.walk() if n["k"] == "CXXForRangeStmt" and is_this_field(strip(n.get("range")), "_global_filters")]
     ok = bool(refresh) and any(is_call(x, r"std::vector<quill::Filter \*.*>::push_back$") for x in walk(refresh[0])) and \
@@ -619,6 +691,9 @@ def r7_threshold_and_filter_setters(ctx, facts):
     rebuild = npos(a, [c for c in a.calls(r"std::vector<.*>::(push_back|emplace_back)$") if is_this_field(call_obj(c), "_local_filters")])
     lf_clear = npos(a, [c for c in a.calls(r"std::vector<.*>::clear$") if is_this_field(call_obj(c), "_local_filters")])
     uses = npos(a, [c for c in a.calls(r"^std::all_of") ] + [c for c in a.calls(r"std::vector<.*>::empty$") if is_this_field(call_obj(c), "_local_filters")])
+    fl = filter_loop(a) if not a.calls(r"^std::all_of") else None
+    if fl is not None:
+        uses = uses + fl["use"]
     ok = bool(flag_edges) and bool(rebuild) and bool(lf_clear) and bool(uses) and \
         not g.exists_path([g.entry_node], rebuild + lf_clear, avoid_edges=flag_edges) and \
         all(not g.exists_path([y for (y, l2) in g.succ.get(tnode(g, b), ()) if l2 == lab], uses, avoid_nodes=lf_clear) for (b, lab) in flag_edges)
@@ -629,6 +704,6 @@ def r7_threshold_and_filter_setters(ctx, facts):
     nontrue = [p for p in g.return_nodes() if p not in trues]
     ok = (not empt) or all(not g.exists_path([y for (y, l2) in g.succ.get(tnode(g, b), ()) if l2 == t], nontrue) and
                            not any(y in nontrue for (y, l2) in g.succ.get(tnode(g, b), ()) if l2 == t) for (b, t) in empt)
-    ctx.ob("C16.R7d", "Sink::apply_all_filters:no-filter-accepts", ok and (bool(empt) or bool(a.calls(r"^std::all_of"))),
+    ctx.ob("C16.R7d", "Sink::apply_all_filters:no-filter-accepts", ok and (bool(empt) or bool(a.calls(r"^std::all_of")) or (fl is not None and fl["ok"])),
            "a statement that passed the threshold is accepted when the sink has no filter (the 'list is empty' outcome returns true, or "
-           "std::all_of runs over the empty list)", fn=a)
+           "std::all_of / the loop runs over the empty list)", fn=a)
